@@ -81,6 +81,21 @@ def hold_case(seed, model, rep):
             holder.kill()
             return
         t_acq = time.time()
+        if rng.chance(1, 2):
+            # something else talks to the lock address and goes away rudely (connect, then reset):
+            # the holder keeps holding
+            import socket
+            import struct
+            for _ in range(rng.range(1, 4)):
+                try:
+                    so = socket.create_connection(("127.0.0.1", repo.lock_port), timeout=1)
+                    so.setsockopt(socket.SOL_SOCKET, socket.SO_LINGER, struct.pack("ii", 1, 0))
+                    so.close()
+                except OSError:
+                    pass
+            rep.count("reset_connections_to_lock_port")
+            case["reset_connections"] = True
+            time.sleep(0.05)
         before = protected_state(repo) if holder_api != "run" else None
         ncont = rng.range(2, 8)
         conts = []
@@ -242,6 +257,58 @@ def overlap_case(seed, model, rep):
         repo.done()
 
 
+def port_listening(port):
+    want = ":%04X" % port
+    try:
+        for line in open("/proc/net/tcp").read().split("\n")[1:]:
+            f = line.split()
+            if len(f) > 3 and f[1].endswith(want) and f[3] == "0A":
+                return True
+    except OSError:
+        pass
+    return False
+
+
+def defaultport_case(seed, model, rep):
+    """the `server.lock` object is present but names no port: the documented default (5917) is the
+    lock address, for every invocation"""
+    rng = scen.Rng(seed)
+    if port_listening(5917):
+        rep.count("default_port_busy_skipped")
+        return
+    repo = setup()
+    case = {"seed": seed, "mode": "defaultport"}
+    try:
+        repo.cfg["server"]["lock"] = rng.pick([{"bind_timeout_ms": 500}, {"host": "127.0.0.1"}, {}])
+        repo.write_config()
+        repo.lock_port = 5917
+        repo.set_plan({"slow|app": {"sleep_ms": 900}, "slow|lib": {"sleep_ms": 900}})
+        holder = repo.popen(["run", "-c", "slow", "-t", "app", "lib"])
+        from logtail import wait_port
+        if not wait_port(5917, 10):
+            holder.kill()
+            rep.count("default_port_holder_not_listening")
+            holder.communicate()
+            if holder.returncode == 0:
+                rep.oracle_fail({"kind": "an invocation that tried to acquire while another held the lock did not fail with the lock error",
+                                 "case": case, "detail": "the holder does not listen on the default lock port 5917"})
+            return
+        api = rng.pick(sorted(APIS))
+        p = repo.popen(APIS[api])
+        out, err = p.communicate(timeout=60)
+        alive = holder.poll() is None
+        hout, herr = holder.communicate(timeout=60)
+        rep.evaluations += 1
+        rep.count("default_port_cases")
+        if alive and (p.returncode == 0 or not is_lock_error(err.decode("utf-8", "replace"))):
+            rep.oracle_fail({"kind": "an invocation that tried to acquire while another held the lock did not fail with the lock error",
+                             "case": case, "contender": api, "rc": p.returncode, "stderr": err.decode("utf-8", "replace")[-300:]})
+            return
+        rep.nontrivial_case(case)
+    finally:
+        repo.done()
+
+
 def main():
     args = scen.parse_args(sys.argv)
     t0 = time.time()
@@ -260,7 +327,9 @@ def main():
         cases.append(("overlap", rng.next()))
     for _ in range(max(2, n // 3)):
         cases.append(("storm", rng.next()))
-    fn = {"hold": hold_case, "storm": storm_case, "overlap": overlap_case}
+    if args["budget"] > 0:
+        cases.append(("defaultport", rng.next()))
+    fn = {"hold": hold_case, "storm": storm_case, "overlap": overlap_case, "defaultport": defaultport_case}
     scen.run_cases(lambda c: fn[c[0]](c[1], model, rep), cases, rep, 6)
     scen.finish(args, rep, t0, model)
 
